@@ -1,5 +1,9 @@
 """C04 — single-crossingness (is_single_crossing, is_single_crossing_conflict_sets).
 
+Since the deepening round the algorithm of is_single_crossing is also mirrored (c04.algo = sc_algo, proved sound and
+complete on well-formed profiles): verdicts must agree (they do whenever the implementation agrees with the references),
+exact agreement of the returned sequence is recorded as a statistic.
+
 Shape (R): the implementation's verdict is compared with the proved reference deciders of Model/SC.v
 (c04.decide = brute force over arrangements, n <= 7; c04.cdecide = nested conflict sets, polynomial, proved
 equivalent to the specification), the returned sequence goes through the verified witness checker c04.check at
@@ -12,6 +16,7 @@ from core import proto
 from .common import case, ordinal_instance, strict, rand_perm
 
 ID = "C04"
+COVER_FILES = ['properties/subdomains/ordinal/singlecrossing.py']
 RULE = ("exhaustive: every set of distinct strict orders over 3 alternatives (2^6 subsets, ids 0..2 and 1..3) in EVERY "
         "storage order; over 4 alternatives every set of n <= 4 (quick) / n <= 5 (thorough) distinct orders, in every "
         "storage order for n <= 3 (quick) / n <= 4 (thorough), else sorted, reversed and one random shuffle; "
@@ -30,15 +35,21 @@ EXHAUSTIVE = {"quick": "m=3: all subsets of the 6 orders in every storage order 
               "thorough": "m=3: all subsets of the 6 orders in every storage order (ids 0..2 and 1..3); m=4: all sets "
                           "of <= 5 distinct orders, every storage order for n <= 4, {sorted, reversed, shuffled} for "
                           "n = 5; m=5: all sets of <= 2 orders in both storage orders"}
-TRUSTED = ["(R) not mirrored: the Kendall-tau scoring / sort / bucket strategy of is_single_crossing and the set "
-           "manipulation of is_single_crossing_conflict_sets; they are compared with the proved references "
-           "c04.decide (n <= 7) and c04.cdecide (all generated sizes) and the returned sequence is checked by the "
-           "verified checker c04.check at every size",
-           "OrdinalInstance.flatten_strict (tuple of the single member of each class) is used as is"]
+TRUSTED = ["is_single_crossing is MIRRORED step by step by sc_algo (Model/SCAlgo.v: scores relative to the first two stored "
+           "orders, stable sort for n < m, bucket array + collision test for n >= m, verification pass) and the mirror is "
+           "proved exact for every size (sc_algo_sound, sc_algo_complete, sc_algo_no_error); the implementation is "
+           "compared with it on every generated case: verdict (hard) and returned sequence (counted statistic; a "
+           "different but valid witness is not an alarm)",
+           "is_single_crossing_conflict_sets is not mirrored literally (Python sets of (min, max) pairs); "
+           "sc_conflict_decide is its specification-level counterpart, proved equivalent to SC, and is compared on "
+           "every case",
+           "OrdinalInstance.flatten_strict (tuple of the single member of each class) is used as is; "
+           "kendall_tau_distance = ktd (theorem ktd_kendall_tau, C20 model)"]
 ASSUMPTIONS = ["profiles are duplicate-free lists of strict complete orders over the alternatives of the instance "
                "(data type soc), at least one order; alternatives are non-negative integers; multiplicities arbitrary >= 1"]
 THEOREMS_FOR_OP = {
-    "c04.decide": "sc_decide_correct / sc_conflict_decide_correct (verdict), sc_witness_check_correct (sequence)",
+    "c04.decide": "sc_decide_correct / sc_conflict_decide_correct / sc_algo_correct (verdict), "
+                  "sc_witness_check_correct (sequence)",
     "c04.core": "sc_core_refutes_sound (sc_sub: heredity), sc_conflict_decide_correct",
 }
 TIMEOUT_S = 60.0
@@ -465,6 +476,8 @@ def _plan(c, r):
     # witness
     if isinstance(r, list) and r[0] == 1:
         plan.append(("check", "c04.check", [alts, orders, r[1]]))
+    # the mirror of is_single_crossing itself (Model/SCAlgo.v; theorems sc_algo_sound / sc_algo_complete)
+    plan.append(("algo", "c04.algo", [alts, orders]))
     # mirror of the verification pass vs the sequence checker on the stored order (theorem ordered_check_correct)
     if c["tags"].get("helper"):
         plan.append(("ordered", "c04.ordered", [orders]))
@@ -496,6 +509,15 @@ def judge(c, r, mres):
     if "ordered" in m and m["ordered"] != m["seqcheck"]:
         return {"kind": "broken-correspondence",
                 "reason": "model: ordered_check and sc_seq_check disagree on the stored order (ordered_check_correct)"}
+    algo = m["algo"]
+    if algo[0] != 0:
+        return {"kind": "broken-correspondence",
+                "reason": "model: the mirror sc_algo raises IndexError on a well-formed profile (sc_algo_no_error)"}
+    algo_verdict = 1 if algo[1] else 0
+    if algo_verdict != expected:
+        return {"kind": "broken-correspondence",
+                "reason": "model: the mirror sc_algo answers %d, the proved references %d (sc_algo_sound / "
+                          "sc_algo_complete)" % (algo_verdict, expected)}
     verdict, seq, cs = r[0], r[1], r[2]
     if verdict != expected:
         return ("is_single_crossing answers %s, the reference (theorem sc_decide_correct / "
@@ -534,6 +556,15 @@ def stats(c, r, m):
     if c["tags"].get("storage") == "all":
         lab.append("every storage order, m=%d n=%d" % (mm, n))
     if isinstance(r, list):
+        mm0 = _named(c, r, m)
+        al = mm0.get("algo")
+        if isinstance(al, list) and al[0] == 0:
+            if al[1] and r[0] == 1:
+                lab.append("mirror sc_algo: returned sequence %s" % ("identical" if al[1][0] == r[1] else "DIFFERENT (both valid)"))
+            elif not al[1] and r[0] == 0:
+                lab.append("mirror sc_algo: both answer False")
+            else:
+                lab.append("mirror sc_algo: verdict differs from the implementation")
         lab.append("conflict_sets compared")
         if r[3] != -1:
             mm_ = _named(c, r, m)
